@@ -133,7 +133,7 @@ def _cases(maxsize, atoms, flags, skey, minsize=1, script=False, pred=None):
 
 def _space(name, fn, rule, bound):
     return Space(name, "mc.props.c09:run_pattern", fn, oracle="inline", nontrivial=nontrivial, rule=rule,
-                 bound=bound, batch=20, watchdog=120)
+                 bound=bound, batch=20, watchdog=120, nondeterminism_is_violation=True)   # a match result is a function of (pattern, subject)
 
 
 HARD_CORES = [
